@@ -300,7 +300,8 @@ class Rv:
     def __rsub__(s, o): return s._b(o, lambda a, b: b - a)
     def __mul__(s, o): return s._b(o, lambda a, b: a * b)
     def __rmul__(s, o): return s._b(o, lambda a, b: b * a)
-    def __truediv__(s, o): return s._b(o, lambda a, b: z3.ToReal(a) / b if a.sort() == I else a / b)
+    def __truediv__(s, o): return s._b(o, lambda a, b: _to_real(a) / _to_real(b))
+    def __rtruediv__(s, o): return s._b(o, lambda a, b: _to_real(b) / _to_real(a))
     def __floordiv__(s, o):
         oz = _z(o)
         if s.e.sort() != I or oz.sort() != I or not (z3.is_int_value(oz) and oz.as_long() > 0):
@@ -417,6 +418,9 @@ class ChildList:
 
     def length(self):
         return Rv(nchild(self.node.t))
+
+    def __bool__(self):
+        return ctx().decide(nchild(self.node.t) > 0, "the connection has children")
 
     def item(self, i):
         i = _z(i)
